@@ -278,6 +278,22 @@ func genC15(g *gen) {
 		}
 	}
 
+	// every predicate on float data that holds NaN, ±Inf and ±0 (value set 1 on 16 and more cells), bounds among the special
+	// values: NaN satisfies none of the ordered predicates and is neither inside nor outside
+	for _, dt := range []string{"f32", "f64"} {
+		for _, op := range maskPreds {
+			for _, mode := range []string{"soft", "hard"} {
+				for _, lits := range [][2]string{{"#q2", "#q12"}, {"#q3", "#q4"}, {"#q0", "#q8"}, {"#q9", "#q2"}} {
+					l := lits[0]
+					if op == "inside" || op == "outside" || op == "values" {
+						l = lits[0] + " " + lits[1]
+					}
+					g.emit("vset=1", fmt.Sprintf("mnew %s 16 C %s", dt, g.maskBits(16, "none")), fmt.Sprintf("mpred %s $0 %s %s", op, mode, l))
+					g.emit("vset=1", fmt.Sprintf("mnew %s 4,4 C %s", dt, g.maskBits(16, "rand")), fmt.Sprintf("mpred %s $0 %s %s", op, mode, l))
+				}
+			}
+		}
+	}
 	// by-values with the default and with explicit tolerances on data that holds neighbours of the reference value
 	// (1 ± 2^-20 next to 1): the same mask for float32 and float64
 	for _, dt := range []string{"f32", "f64"} {
